@@ -59,6 +59,10 @@ func c11Headers(n int, tier string, rng *Rng) []string {
 		"bytes=010-017", "bytes=0-010", "bytes=08-", "bytes=0x0-", "bytes=0b1-", "bytes=0o1-3", "bytes=1-0x3", "bytes=1-1_0", "bytes=-1e1", "bytes=1e0-"} {
 		add(s)
 	}
+	// a header is malformed before it is a multi-range request: a comma does not make a foreign unit valid
+	for _, h := range []string{"items=0-1,3-4", "bytes 0-1,3-4", "Bytes=0-1,3-4", "0-1,3-4", ",", "=0-1,2-3", "byte=0-1,2-3", "bytes:0-1,2-3", ",bytes=0-1", "x,bytes=0-1"} {
+		add(h)
+	}
 	// the unit is a prefix, once: whatever follows "bytes=" is the range spec, also when it looks like
 	// (part of) the unit again
 	for _, junk := range []string{"=", "==", "b", "y", "t", "e", "s", "bytes=", "bytes", "byte", "tes=", "=bytes=", "sb=", "yes"} {
